@@ -26,6 +26,7 @@ RULE = ("case = one word over rows (key incl. null, value null/non-null, mask bi
         "all-reversed schedule; state = (input, configuration, schedule); outcome must equal the "
         "baseline normal form exactly; non-trivial = >= 2 rows and some configuration splits them")
 ASSUMPTIONS = [
+    'multi-key groupings (2 and 3 keys) under T = 2, 3 with D <= 1 / 2; chunk-wise uint8 values under masks; the first schedule of every exploration is replayed twice (determinism self-check)',
     "footprint sub-spaces: around every task body all array memory reachable from any task of the pool, finished tasks' results and the library's module-level state is compared element by element (write-write conflicts, writes into another task's result); quick: one configuration per kind of pool on A(2)^3, thorough: all configurations and operations",
     "tasks run to completion one at a time in the chosen order (completion order = execution "
     "order); interleavings inside numba kernels are not modelled (tasks write only arrays they "
